@@ -718,7 +718,9 @@ func outboundInfo(c *core.Ctx) (disp *ssa.Function, hs map[string]*outHandler) {
 					continue
 				}
 				ta, ok := ex.Tuple.(*ssa.TypeAssert)
-				if !ok || !strings.HasSuffix(an.PathOf(ta.X), ".Msg") {
+				// (the child's message: the Msg field of the hand-over record, or the dispatcher's own
+				// ServerMsg parameter when the record has been unpacked by the caller)
+				if !ok || !(strings.HasSuffix(an.PathOf(ta.X), ".Msg") || typeNameOf(ta.X.Type()) == "ServerMsg") {
 					continue
 				}
 				t := typeNameOf(ta.AssertedType)
@@ -731,7 +733,7 @@ func outboundInfo(c *core.Ctx) (disp *ssa.Function, hs map[string]*outHandler) {
 					if typeNameOf(p.Type()) == t {
 						oh.msg = p
 					}
-					if bt, isB := p.Type().Underlying().(*types.Basic); isB && bt.Info()&types.IsInteger != 0 && i < len(call.Call.Args) && strings.HasSuffix(an.PathOf(call.Call.Args[i]), ".Idx") {
+					if bt, isB := p.Type().Underlying().(*types.Basic); isB && bt.Info()&types.IsInteger != 0 && i < len(call.Call.Args) && (strings.HasSuffix(an.PathOf(call.Call.Args[i]), ".Idx") || isIntParam(fn, call.Call.Args[i])) {
 						oh.idx = "p:" + p.Name()
 					}
 					if strings.HasSuffix(typeNameOf(p.Type()), "SendMsg") {
@@ -740,7 +742,7 @@ func outboundInfo(c *core.Ctx) (disp *ssa.Function, hs map[string]*outHandler) {
 				}
 				if oh.msg == nil {
 					an.Instrs(h, func(in ssa.Instruction) {
-						if ta2, ok := in.(*ssa.TypeAssert); ok && !ta2.CommaOk && typeNameOf(ta2.AssertedType) == t && strings.HasSuffix(an.PathOf(ta2.X), ".Msg") {
+						if ta2, ok := in.(*ssa.TypeAssert); ok && !ta2.CommaOk && typeNameOf(ta2.AssertedType) == t && (strings.HasSuffix(an.PathOf(ta2.X), ".Msg") || typeNameOf(ta2.X.Type()) == "ServerMsg") {
 							oh.msg = ta2
 						}
 					})
@@ -755,6 +757,16 @@ func outboundInfo(c *core.Ctx) (disp *ssa.Function, hs map[string]*outHandler) {
 		}
 	}
 	return disp, hs
+}
+
+// isIntParam: v is an integer parameter of fn (the child index handed down as an argument)
+func isIntParam(fn *ssa.Function, v ssa.Value) bool {
+	p, ok := v.(*ssa.Parameter)
+	if !ok || p.Parent() != fn {
+		return false
+	}
+	bt, isB := p.Type().Underlying().(*types.Basic)
+	return isB && bt.Info()&types.IsInteger != 0
 }
 
 // outboundHandlers: the handler function per reply type.
@@ -950,7 +962,7 @@ func runDispatch(c *core.Ctx) {
 			good = false
 			for _, g := range an.Guards(disp, cs[0].Block()) {
 				if ex, ok := g.V.(*ssa.Extract); ok && g.True && ex.Index == 1 {
-					if ta, ok := ex.Tuple.(*ssa.TypeAssert); ok && typeNameOf(ta.AssertedType) == t && strings.HasSuffix(an.PathOf(ta.X), ".Msg") {
+					if ta, ok := ex.Tuple.(*ssa.TypeAssert); ok && typeNameOf(ta.AssertedType) == t && (strings.HasSuffix(an.PathOf(ta.X), ".Msg") || typeNameOf(ta.X.Type()) == "ServerMsg") {
 						good = true
 					}
 				}
@@ -1020,7 +1032,12 @@ func runDispatch(c *core.Ctx) {
 	// default clause forwards the child's message unchanged
 	okDef := false
 	for _, rb := range an.ReturnBlocks(disp) {
-		if strings.HasSuffix(an.PathOf(an.ReturnValues(an.LastInstr(rb).(*ssa.Return))[0]), ".Msg") {
+		rv0 := an.ReturnValues(an.LastInstr(rb).(*ssa.Return))[0]
+		if strings.HasSuffix(an.PathOf(rv0), ".Msg") {
+			okDef = true
+		}
+		// (the dispatcher's own ServerMsg parameter, when the caller has unpacked the record)
+		if p, isP := an.Unwrap(rv0).(*ssa.Parameter); isP && p.Parent() == disp && typeNameOf(p.Type()) == "ServerMsg" {
 			okDef = true
 		}
 	}
@@ -1759,9 +1776,105 @@ func envelopeRecvBlocks(root, disp *ssa.Function) map[*ssa.BasicBlock]bool {
 		return out
 	}
 	env := disp.Params[len(disp.Params)-1].Type()
+	// the channel carries the message itself, or a record holding it / a batch of them
+	// (the message, or what the record handed to the dispatcher is made of)
+	parts := []types.Type{env}
+	{
+		et := env
+		if pt, ok := et.Underlying().(*types.Pointer); ok {
+			et = pt.Elem()
+		}
+		if st, ok := et.Underlying().(*types.Struct); ok {
+			for i := 0; i < st.NumFields(); i++ {
+				if _, isIface := st.Field(i).Type().Underlying().(*types.Interface); isIface {
+					parts = append(parts, st.Field(i).Type())
+				}
+			}
+		}
+	}
+	isPart := func(t types.Type) bool {
+		for _, p := range parts {
+			if types.Identical(t, p) {
+				return true
+			}
+		}
+		return false
+	}
+	carries := func(t types.Type) bool {
+		if types.Identical(t, env) {
+			return true
+		}
+		if pt, ok := t.Underlying().(*types.Pointer); ok {
+			t = pt.Elem()
+		}
+		st, ok := t.Underlying().(*types.Struct)
+		if !ok {
+			return false
+		}
+		for i := 0; i < st.NumFields(); i++ {
+			ft := st.Field(i).Type()
+			if isPart(ft) {
+				return true
+			}
+			if sl, ok := ft.Underlying().(*types.Slice); ok && isPart(sl.Elem()) {
+				return true
+			}
+		}
+		return false
+	}
 	isEnvChan := func(t types.Type) bool {
 		ch, ok := t.Underlying().(*types.Chan)
-		return ok && types.Identical(ch.Elem(), env)
+		return ok && carries(ch.Elem())
+	}
+	// a batch of messages walked element by element: each turn of the range loop takes the next
+	// message (`for _, msg := range batch.Msgs { ss.handleSendMsg(batch.Idx, msg) }`)
+	for _, call := range callsTo(root, disp) {
+		var cands []ssa.Value
+		for _, a := range call.Call.Args {
+			if !types.Identical(a.Type(), env) {
+				continue
+			}
+			cands = append(cands, a)
+			// the record built per element by a module constructor
+			if mk, isCall := a.(*ssa.Call); isCall {
+				if sc := an.StaticCallee(&mk.Call); sc != nil && sc.Pkg == disp.Pkg {
+					for _, a2 := range mk.Call.Args {
+						if isPart(a2.Type()) {
+							cands = append(cands, a2)
+						}
+					}
+				}
+			}
+		}
+		for _, a := range cands {
+			ld, ok := a.(*ssa.UnOp)
+			if !ok || ld.Op != token.MUL {
+				continue
+			}
+			ia, ok := ld.X.(*ssa.IndexAddr)
+			if !ok {
+				continue
+			}
+			idx := ia.Index
+			var ph *ssa.Phi
+			if bo, ok := idx.(*ssa.BinOp); ok && bo.Op == token.ADD {
+				if k, isK := an.ConstInt(bo.Y); isK && k == 1 {
+					ph, _ = bo.X.(*ssa.Phi)
+				}
+			}
+			if ph == nil {
+				continue
+			}
+			self := false
+			for _, e := range ph.Edges {
+				if e == idx {
+					self = true
+				}
+			}
+			if self && an.LoopHeaderOf(call.Block()) != nil {
+				out[ph.Block()] = true
+			}
+		}
 	}
 	for _, b := range root.Blocks {
 		for _, in := range b.Instrs {
